@@ -36,7 +36,7 @@ def run(ctx, chk):
     else:
         chk.ok("O1", tv.defp, tv.span)
     Q.rule_push(chk, "O4", "O4")
-    Q.rule_pop(chk, "O4", "O4", "O4")
+    Q.rule_pop(chk, "O4", "O4", "O4", seq=True)
     Q.rule_remove_find(chk, "O4")
     Q.who_may(chk, "O4")
     Q.rule_constructors(chk, "O2")
